@@ -512,4 +512,5 @@ func runC11(c *Ctx) {
 
 	runC11Lifecycle(c, names)
 	runC11Watchers(c)
+	runC11Shares4(c)
 }
